@@ -62,9 +62,13 @@ def mc_configs(tier):
     c["ask_linger"] = dict(BASE, NT=4, NW=3, Kind="stop", MaxRuns=1, MaxRep=1, FailB=0, Sjwd=False, Linger=True)
     c["pbt_3t"] = dict(BASE, NT=3, Kind="pbt", MaxRuns=1, FailB=0)
     if tier == "thorough":
-        c["pause_3t"] = dict(BASE, NT=3)
-        c["pause_2t_3rep"] = dict(BASE, MaxRep=3, MaxRuns=3)
+        # (sizes measured on 16 cores: 1.5 M / 12 s, 9.5 M / 47 s, 9.8 M / 51 s, 1.0 M / 8 s; three trials with two reports
+        #  and two runs each do not finish within 10 minutes since the clone queue, the busy poll and the statistics were added)
+        c["pause_3t_1rep"] = dict(BASE, NT=3, MaxRep=1)
+        c["pause_2t_3rep"] = dict(BASE, MaxRep=3)
+        c["pause_2t_3runs"] = dict(BASE, MaxRuns=3)
         c["nw3"] = dict(BASE, NT=3, NW=3, Kind="stop", MaxRuns=1)
+        c["stop_4t"] = dict(BASE, NT=4, Kind="stop", MaxRuns=1, MaxRep=2, FailB=1)
     return c
 
 
